@@ -3,7 +3,7 @@
    SigSafe.v, SigQuiesce.v; Print Assumptions follows each. *)
 From Coq Require Import List NArith Bool.
 Import ListNotations.
-Require Import Util SigCore SigLemmas SigInv SigSafe SigSpec SigQuiesce.
+Require Import Util SigCore SigLemmas SigInv SigSafe SigSpec SigQuiesce SigExtra.
 Local Open Scope N_scope.
 
 Theorem C07_functor_held_only_by_live_slot_or_connected_element : S_functor_holders.
@@ -18,3 +18,9 @@ Print Assumptions C07_nothing_leaks_lists_hold_only_connected.
 Theorem C07_teardown_complete : S_teardown_complete.
 Proof. exact teardown_complete. Qed.
 Print Assumptions C07_teardown_complete.
+
+(* "releasing whatever the functor holds": an object co-owned by functor copies dies exactly when the
+   program has released it and no functor copy owns it any more *)
+Theorem C07_shared_object_lifetime : S_shared_trackable_lifetime.
+Proof. exact shared_trackable_lifetime_partial. Qed.
+Print Assumptions C07_shared_object_lifetime.
